@@ -39,6 +39,9 @@ func checkC09(e *RunEnv) *CheckResult {
 		Steps: func(n *Node) []Step {
 			a := n.Abs()
 			var steps []Step
+			if n.Seed == "everything-unstaged" && !e.Thorough() && n.Depth >= 2 {
+				return nil // quick: this seed two levels deep only
+			}
 			args := coreArgs
 			if e.Thorough() && n.Depth <= 1 {
 				args = append(append([]string{}, spellings...), coreArgs...)
@@ -68,6 +71,12 @@ func checkC09(e *RunEnv) *CheckResult {
 					steps = append(steps, Write(p, v1(p)))
 				}
 				steps = append(steps, Run("add", p), Run("rm", p))
+			}
+			// an empty directory standing where a tracked file was
+			for _, p := range []string{"g", "d/x"} {
+				if _, onDisk := a.W[p]; !onDisk && !hasDirOnDisk(a, p) {
+					steps = append(steps, Mkdir(p))
+				}
 			}
 			if hasDirOnDisk(a, "d") {
 				steps = append(steps, Rmdir("d"))
